@@ -46,8 +46,85 @@ import (
 	"github.com/DrmagicE/gmqtt/server"
 	_ "github.com/DrmagicE/gmqtt/topicalias/fifo"
 
+	mw "verifharness/mqttwire"
 	"verifharness/tc"
 )
+
+// ------------------------------------------------------------------ intrinsic reference
+//
+// Normally the reference for "what processing this byte stream means" is the same stream over the broker's TCP listener (the
+// twin), compared byte for byte.  When the twin itself fails its self-check (the packet reader is broken for every
+// transport), the reference is what MQTT demands for the stream, compared packet by packet after decoding with the
+// independent codec: CONNACK 0, SUBACK [0], PUBACK per QoS 1 publication, PINGRESP; one QoS 0 delivery per publication
+// with the payload that was sent.
+var intrinsicRef string // non-empty: why the twin is not used
+
+func canonPacket(raw []byte, ver int) []byte {
+	v := byte(mw.V311)
+	if ver == 5 {
+		v = mw.V5
+	}
+	p, err := mw.DecodeBytes(raw, v)
+	if err != nil {
+		n := len(raw)
+		if n > 16 {
+			n = 16
+		}
+		return []byte(fmt.Sprintf("UNDECODABLE(%d bytes):%x", len(raw), raw[:n]))
+	}
+	switch p.Type {
+	case mw.CONNACK:
+		return []byte(fmt.Sprintf("CONNACK:%d", p.Code))
+	case mw.SUBACK:
+		return []byte(fmt.Sprintf("SUBACK:%d:%v", p.PacketID, p.Codes))
+	case mw.PUBACK:
+		return []byte(fmt.Sprintf("PUBACK:%d:%d", p.PacketID, p.Code))
+	case mw.PINGRESP:
+		return []byte("PINGRESP")
+	case mw.PUBLISH:
+		return []byte(fmt.Sprintf("PUBLISH:%s:q%d:retain=%v:%d bytes:%x", p.Topic, p.QoS, p.Retain, len(p.Payload), sum(p.Payload)))
+	}
+	return []byte("OTHER:" + mw.TypeName(p.Type))
+}
+
+func sum(b []byte) uint64 {
+	h := uint64(14695981039346656037)
+	for _, c := range b {
+		h = (h ^ uint64(c)) * 1099511628211
+	}
+	return h
+}
+
+func canonLanes(l lanes, ver int) lanes {
+	var out lanes
+	for i := range l {
+		for _, raw := range l[i] {
+			out[i] = append(out[i], canonPacket(raw, ver))
+		}
+	}
+	return out
+}
+
+func intrinsic(p *Profile, topic string) lanes {
+	var out lanes
+	add := func(lane int, s string) { out[lane] = append(out[lane], []byte(s)) }
+	add(laneResp, "CONNACK:0")
+	if p.Sub {
+		add(laneResp, "SUBACK:1:[0]")
+	}
+	for i, pb := range p.Pubs {
+		if pb.Q > 0 {
+			add(laneResp, fmt.Sprintf("PUBACK:%d:0", i+10))
+		}
+		if p.Sub {
+			add(laneDeliv, fmt.Sprintf("PUBLISH:%s:q0:retain=false:%d bytes:%x", topic, pb.N, sum(payload(i, pb.N))))
+		}
+	}
+	if p.Ping {
+		add(laneResp, "PINGRESP")
+	}
+	return out
+}
 
 // ------------------------------------------------------------------ stream profiles
 
@@ -650,15 +727,24 @@ func runOnce(ln *Line, raw []byte, soft time.Duration) *Result {
 	}
 	tw, wsid, _, topic := ids()
 	res := &Result{line: raw, ln: ln, Chunks: len(ln.Seg)}
-	ref, _, err := twin(build(p, tw, topic), false)
-	for try := 0; err != nil; try++ {
-		// the reference itself misbehaved (not a WebSocket matter): note it, take a fresh client id and topic
-		twinAnomaly(ln.Stream + ": " + err.Error())
-		if try == 2 {
-			machinery("TCP twin (reference) failed three times in a row: " + err.Error())
-		}
-		tw, wsid, _, topic = ids()
+	var ref lanes
+	var err error
+	if intrinsicRef != "" {
+		ref = intrinsic(p, topic)
+	} else {
 		ref, _, err = twin(build(p, tw, topic), false)
+		for try := 0; err != nil; try++ {
+			// the reference itself misbehaved (not a WebSocket matter): note it, take a fresh client id and topic
+			twinAnomaly(ln.Stream + ": " + err.Error())
+			if try == 2 {
+				// the broker does not get through this stream over TCP either: from here on the reference is what MQTT demands
+				intrinsicRef = "TCP twin failed three times in a row on stream " + ln.Stream + ": " + err.Error()
+				ref, err = intrinsic(p, topic), nil
+				break
+			}
+			tw, wsid, _, topic = ids()
+			ref, _, err = twin(build(p, tw, topic), false)
+		}
 	}
 	st := build(p, wsid, topic)
 	res.N = len(st.Bytes)
@@ -670,6 +756,9 @@ func runOnce(ln *Line, raw []byte, soft time.Duration) *Result {
 		machinery(fmt.Sprintf("segmentation of %d bytes for stream %s of %d bytes", sum, ln.Stream, len(st.Bytes)))
 	}
 	pt := patience{soft: soft, canary: func() (d time.Duration, err error) {
+		if intrinsicRef != "" {
+			return 0, nil // (no TCP canary when the TCP side is what is broken)
+		}
 		for try := 0; try < 3; try++ {
 			_, _, cid, ctopic := ids() // fresh: a canary must not take over anybody's session
 			if _, d, err = twin(build(p, cid, ctopic), false); err == nil {
@@ -783,6 +872,9 @@ func runOnce(ln *Line, raw []byte, soft time.Duration) *Result {
 	}
 	r.mu.Lock()
 	obs := r.lanes
+	if intrinsicRef != "" {
+		obs = canonLanes(obs, p.Ver)
+	}
 	stray := len(r.raw) - r.parsed
 	tail := append([]byte(nil), r.raw[r.parsed:]...)
 	nonBin := r.nonBinary
@@ -932,15 +1024,25 @@ func main() {
 		tw, tw2, _, topic := ids()
 		a, _, err := twin(build(p, tw, topic), false)
 		if err != nil {
-			machinery("self-check twin: " + err.Error())
+			intrinsicRef = "self-check twin: " + err.Error()
+			break
 		}
 		c, _, err := twin(build(p, tw2, topic), true)
 		if err != nil {
-			machinery("self-check twin (stepwise): " + err.Error())
+			intrinsicRef = "self-check twin (stepwise): " + err.Error()
+			break
 		}
 		for lane := 0; lane < 2; lane++ {
 			if firstBad(a[lane], c[lane]) != 1<<30 {
 				machinery(fmt.Sprintf("the TCP reference of stream %s is not deterministic (lane %d)", p.Name, lane))
+			}
+		}
+		// the twin agrees with what MQTT demands for the stream (so that both references mean the same)
+		want := intrinsic(p, topic)
+		got := canonLanes(a, p.Ver)
+		for lane := 0; lane < 2; lane++ {
+			if firstBad(got[lane], want[lane]) != 1<<30 || len(got[lane]) != len(want[lane]) {
+				machinery(fmt.Sprintf("the TCP twin's answers to stream %s are not what the intrinsic reference demands (lane %d): %q vs %q", p.Name, lane, got[lane], want[lane]))
 			}
 		}
 	}
@@ -1062,5 +1164,5 @@ func main() {
 	rep.Summary(map[string]interface{}{"skipped_after_divergences": atomic.LoadInt64(&skippedAfterDivs), "by_signature": bySig, "per_family": perFam, "predicted_drop": predicted,
 		"predicted_drop_but_conformant_strict": predictedOKStrict, "predicted_drop_but_conformant_strict_binary_only": predictedOKStrictBin, "predicted_drop_but_conformant_tolerant": predictedOKTolerant,
 		"strict": strictN, "text": textN, "bytes": bytesSent, "messages": msgsSent, "unconfirmed": unconfirmed,
-		"diverging_scenarios": len(divs), "twin_anomalies": anomalies, "predicted_drop_but_conformant_samples": mispred})
+		"diverging_scenarios": len(divs), "twin_anomalies": anomalies, "intrinsic_reference": intrinsicRef, "predicted_drop_but_conformant_samples": mispred})
 }
